@@ -149,8 +149,37 @@ def check_captures_shape(fn):
     last = fn.body[-1]
     if not (isinstance(last, ast.Return) and last in trues and len(trues) == 1):
         problems.append("does not end with the single `return True` (must accept exactly when no mismatch was found)")
+    if len(falses) == 2:
+        # nested form (what the normal form gives for a conditional match): one rejection per kind of condition
+        #   v.capture in captures, isinstance(v.value, MatchFunction), not v.value.fn(value)   |   ..., not isinstance(..), v.value != value
+        loops_ok = True
+        shapes = set()
+        for rf in falses:
+            loops = [a for a in _anc(rf) if isinstance(a, ast.For)]
+            iters = [norm(l.iter) for l in loops]
+            if not (any(i.endswith(".all_values") for i in iters) and any(i.endswith(".values") for i in iters)):
+                loops_ok = False
+            inner = loops[0].target.id if loops and isinstance(loops[0].target, ast.Name) else "?"
+            outer = loops[-1].target.id if loops and isinstance(loops[-1].target, ast.Name) else "?"
+            def roles(c):
+                t = ast.parse(c, mode="eval").body
+                for n in ast.walk(t):
+                    if isinstance(n, ast.Name):
+                        n.id = "V" if n.id == outer else "X" if n.id == inner else n.id
+                return norm(t)
+            cs = frozenset(roles(c) for c in conds(rf, fn))
+            shapes.add(cs)
+        if not loops_ok:
+            problems.append("a rejection is not inside the loops over self.all_values and over the captured values (must hold for every value)")
+        want = {frozenset({"V.capture in captures", "isinstance(V.value, MatchFunction)", "not V.value.fn(X)"}),
+                frozenset({"V.capture in captures", "not isinstance(V.value, MatchFunction)", "V.value != X"})}
+        alt = {frozenset({"V.capture in captures", "isinstance(V.value, MatchFunction)", "not V.value.fn(X)"}),
+               frozenset({"V.capture in captures", "not isinstance(V.value, MatchFunction)", "X != V.value"})}
+        if shapes not in (want, alt):
+            problems.append(f"the rejecting conditions are {sorted(sorted(x) for x in shapes)}: expected a MatchFunction predicate that fails on the value, or a plain value that differs from it, for a capture present in the table")
+        return problems
     if len(falses) != 1:
-        problems.append(f"expected exactly one rejecting return, found {len(falses)}")
+        problems.append(f"expected one rejecting return (or one per kind of condition), found {len(falses)}")
         return problems
     rf = falses[0]
     loops = [a for a in _anc(rf) if isinstance(a, ast.For)]
